@@ -382,6 +382,7 @@ def shard(ctx, acc):
     kinds, nonstmt = kinds_in(case['src'])
     nt = len(kinds) >= 3 and nonstmt
     cls = ['kind:' + k for k in sorted(kinds)] + ['features=' + '+'.join(config['features'])]
+    cls += [k for k in prog['meta'] if k.startswith('excluded:')]
     if nonstmt:
       cls.append('construct_in_non_statement_context')
     for k in ('lambda_def', 'lambda_call', 'comprehension', 'def_with_default_and_decorator', 'nested_def', 'with', 'try', 'finally'):
